@@ -343,24 +343,8 @@ impl TestRunner {
     pub fn step_over(&mut self) -> MosResult<ExecuteResult> {
         let opcode = self.ram.read().unwrap().ram[self.cpu.get_program_counter() as usize];
         match opcode {
-            0x20 => {
-                // jsr
-                let wait_until_pc = self.cpu.get_program_counter() + 3;
-                loop {
-                    let result = self.execute_instruction()?;
-
-                    if self.cpu.get_program_counter() == wait_until_pc {
-                        return Ok(result);
-                    }
-
-                    match result {
-                        ExecuteResult::Running => {}
-                        result => {
-                            return Ok(result);
-                        }
-                    }
-                }
-            }
+            // jsr: the whole call is one step
+            0x20 => self.run_until_returned(0),
             _ => self.execute_instruction(),
         }
     }
@@ -371,18 +355,31 @@ impl TestRunner {
             return Ok(ExecuteResult::Running);
         }
 
-        let sp_lo =
-            self.ram.read().unwrap().ram[256 + self.cpu.get_stack_pointer() as usize + 1] as usize;
-        let sp_hi =
-            self.ram.read().unwrap().ram[256 + self.cpu.get_stack_pointer() as usize + 2] as usize;
-        let will_return_to = 1 + sp_lo + 256 * sp_hi;
+        self.run_until_returned(1)
+    }
 
+    /// Runs until the subroutine activation that is `pending_returns` levels up has returned. Calls and returns are
+    /// counted as they are executed: looking for the return address alone would also stop inside a deeper activation
+    /// of a recursive subroutine (or at once, when a subroutine calls the instruction right behind the call), and
+    /// reading the return address off the stack goes wrong as soon as the subroutine has pushed something.
+    fn run_until_returned(&mut self, mut pending_returns: usize) -> MosResult<ExecuteResult> {
         loop {
-            if self.cpu.get_program_counter() == will_return_to as u16 {
-                return Ok(ExecuteResult::Running);
+            let opcode = self.ram.read().unwrap().ram[self.cpu.get_program_counter() as usize];
+            let result = self.execute_instruction()?;
+            match opcode {
+                // jsr
+                0x20 => pending_returns += 1,
+                // rts
+                0x60 => {
+                    pending_returns = pending_returns.saturating_sub(1);
+                    if pending_returns == 0 {
+                        return Ok(result);
+                    }
+                }
+                _ => {}
             }
 
-            match self.execute_instruction()? {
+            match result {
                 ExecuteResult::Running => {}
                 result => {
                     return Ok(result);
